@@ -18,6 +18,9 @@ Section StepRel.
   Hypothesis R_drop : forall s st, R st (drop_sel s st).
   Hypothesis R_create : forall nm st, R st (create_box nm st).
   Hypothesis R_rename : forall a b st, R st (rename_box a b st).
+  Hypothesis R_names : forall n st, R st (set_names n st).
+  Hypothesis R_ro : forall l st, R st (set_ro l st).
+  Hypothesis R_adopt : forall i rc dl mk st, R st (adopt_one i rc dl mk st).
   Hypothesis R_select : forall s nm ro st,
       allowed st (Select s nm ro) -> R (drop_sel s st) (fst (select_new s nm ro (drop_sel s st))).
 
@@ -25,14 +28,26 @@ Section StepRel.
   Proof.
     unfold post_sync. destruct (lookup s (sess st)) as [sl|]; [|apply R_refl].
     assert (H : R st (fst (match find_box st (s_name sl) with
-                           | Some (i, b) => if i =? s_bid sl then do_sync s sl b st else (st, PStale)
+                           | Some (i, b) => if i =? s_bid sl then do_sync s sl b st else (drop_sel s st, PBye)
                            | None => (drop_sel s st, PBye)
                            end))).
     { destruct (find_box st (s_name sl)) as [[i b]|]; [|apply R_drop].
-      destruct (i =? s_bid sl); [apply R_do_sync|apply R_refl]. }
+      destruct (i =? s_bid sl); [apply R_do_sync|apply R_drop]. }
     destruct h as [i|]; [|exact H].
     destruct (i =? s_bid sl); [|exact H].
     destruct (lookup i (boxes st)); [apply R_do_sync|exact H].
+  Qed.
+
+  Lemma R_rename_tree a b st : R st (rename_tree a b st).
+  Proof.
+    unfold rename_tree. destruct (name_sub a), (name_sub b); try apply R_rename.
+    eapply R_trans; apply R_rename.
+  Qed.
+
+  Lemma R_adopt_loop i ms : forall st, R st (adopt_loop i ms st).
+  Proof.
+    induction ms as [|[[mk dl] rc] r IH]; intro st; cbn [adopt_loop]; [apply R_refl|].
+    eapply R_trans; [apply R_adopt|apply IH].
   Qed.
 
   Lemma R_resync s st : R st (fst (resync s st)).
@@ -73,11 +88,17 @@ Section StepRel.
     - destruct (nm =? INBOX); [apply R_refl|]. destruct (lookup nm (names st)); [apply R_refl|].
       pfst (post_sync s None (create_box nm st)).
       eapply R_trans; [apply R_create|apply R_post_sync].
+    - destruct (nm =? INBOX); [apply R_refl|]. destruct (lookup nm (names st)); [|apply R_refl].
+      pfst (post_sync s None (set_names (remove nm (names st)) st)).
+      eapply R_trans; [apply R_names|apply R_post_sync].
     - destruct (b =? INBOX); [apply R_refl|].
-      destruct (lookup a (names st)); [|apply R_refl]. destruct (lookup b (names st)); [apply R_refl|].
-      pfst (post_sync s None (rename_box a b st)).
-      eapply R_trans; [apply R_rename|apply R_post_sync].
+      destruct (in_tree st a && negb (in_tree st b)); [|apply R_refl].
+      match goal with |- context [if ?c then _ else _] => destruct c end.
+      + apply R_rename_tree.
+      + pfst (post_sync s None (rename_tree a b st)).
+        eapply R_trans; [apply R_rename_tree|apply R_post_sync].
     - destruct (find_box st nm) as [[i b]|]; [|apply R_refl].
+      destruct (box_ro st i); [apply R_refl|].
       destruct (pick_ok st s i (c_pick ch)); [|apply R_refl].
       pose proof (R_append_loop i (c_pick ch) ms st) as G.
       destruct (append_loop i (c_pick ch) ms st) as [st1 us]. cbn [fst] in G.
@@ -86,25 +107,26 @@ Section StepRel.
     - destruct (lookup s (sess st)) as [sl|]; [|apply R_refl].
       destruct (s_ro sl); [apply R_drop|].
       destruct (find_box st (s_name sl)) as [[i b]|]; [|apply R_drop].
-      destruct (i =? s_bid sl); [|apply R_refl].
+      destruct (i =? s_bid sl); [|apply R_drop].
       cbn [fst]. eapply R_trans; [apply R_remove|apply R_drop].
     - apply R_drop.
-    - destruct (resolve st s) as [| | |sl i b]; try apply R_refl.
+    - destruct (resolve st s) as [| |sl i b]; try apply R_refl.
       pfst (do_sync s sl b st). apply R_do_sync.
-    - destruct (resolve st s) as [| | |sl i b]; try apply R_refl.
+    - destruct (resolve st s) as [| |sl i b]; try apply R_refl.
       destruct (s_ro sl); [apply R_refl|].
       match goal with |- context [resync s ?X] => pfst (resync s X) end.
       eapply R_trans; [apply R_remove|apply R_resync].
-    - destruct (resolve st s) as [| | |sl i b]; try apply R_refl.
+    - destruct (resolve st s) as [| |sl i b]; try apply R_refl.
       destruct (find_box st nm) as [[j bj]|]; [|apply R_refl].
+      destruct (box_ro st j); [apply R_refl|].
       destruct (pick_ok st s j (c_pick ch)); [|apply R_refl].
       match goal with |- context [copy_loop false i j ?c ?us st] =>
         pose proof (R_copy_loop false i j c us st) as G;
         destruct (copy_loop false i j c us st) as [st1 ps] end.
       cbn [fst] in G. pfst (resync s st1). eapply R_trans; [exact G|apply R_resync].
-    - destruct (resolve st s) as [| | |sl i b]; try apply R_refl.
+    - destruct (resolve st s) as [| |sl i b]; try apply R_refl.
       destruct (find_box st nm) as [[j bj]|]; [|apply R_refl].
-      destruct (s_ro sl); [apply R_refl|].
+      destruct (s_ro sl || box_ro st j); [apply R_refl|].
       destruct (pick_ok st s j (c_pick ch)); [|apply R_refl].
       match goal with |- context [copy_loop true i j ?c ?us st] =>
         pose proof (R_copy_loop true i j c us st) as G;
@@ -112,13 +134,20 @@ Section StepRel.
       cbn [fst] in G. pfst (resync s st1). eapply R_trans; [exact G|apply R_resync].
     - destruct (find_box st nm) as [[i b]|]; [|apply R_refl].
       pfst (post_sync s (Some i) st). apply R_post_sync.
-    - destruct (resolve st s) as [| | |sl i b]; try apply R_refl.
+    - destruct (resolve st s) as [| |sl i b]; try apply R_refl.
       pose proof (R_do_sync s sl b st) as G.
       destruct (do_sync s sl b st) as [st1 p]. cbn [fst] in G.
       destruct (lookup s (sess st1)); exact G.
-    - destruct (resolve st s) as [| | |sl i b]; try apply R_refl.
+    - destruct (resolve st s) as [| |sl i b]; try apply R_refl.
       pose proof (R_do_sync s sl b st) as G.
       destruct (do_sync s sl b st) as [st1 p]. cbn [fst] in G.
       destruct (s_ro sl); cbn [fst]; [exact G|]. eapply R_trans; [exact G|apply R_store].
+    - destruct (lookup s (sess st)); apply R_refl.
+    - destruct (resolve st s) as [| |sl i b]; try apply R_refl.
+      pfst (do_sync s sl b st). apply R_do_sync.
+    - destruct (resolve st s) as [| |sl i b]; try apply R_refl.
+      pfst (do_sync s sl b st). apply R_do_sync.
+    - destruct (find_box st nm) as [[i b]|]; [|apply R_refl]. apply R_ro.
+    - destruct (find_box st nm) as [[i b]|]; [|apply R_refl]. apply R_adopt_loop.
   Qed.
 End StepRel.
